@@ -4,6 +4,7 @@ import (
 	"bytes"
 	"fmt"
 	"net"
+	"runtime"
 	"strconv"
 	"sync"
 	"time"
@@ -182,13 +183,19 @@ const pfSock = 0xA00
 // is there is recorded: if the effect shows up in that extension the machine is busy, not the code wrong, and the run goes
 // on with long waits; on a tree where the effect never comes the extension is paid once per step and changes nothing.
 var pfPatience = time.Duration(1)
+var pfSites = map[string]int{}
+var pfExpired, pfLate int // waits that ran out (the effect never came) / whose effect came during the extension
 
 func pfWait(d time.Duration, cond func() bool) {
 	end := time.Now().Add(d * pfPatience)
 	for !cond() && time.Now().Before(end) {
 		time.Sleep(time.Millisecond)
 	}
-	if cond() || pfPatience > 1 {
+	if cond() {
+		return
+	}
+	if pfPatience > 1 {
+		pfExpired++
 		return
 	}
 	end = time.Now().Add(5 * d)
@@ -197,6 +204,12 @@ func pfWait(d time.Duration, cond func() bool) {
 	}
 	if cond() {
 		pfPatience = 6
+		pfLate++
+	} else {
+		pfExpired++
+		_, _, line, _ := runtime.Caller(1)
+		_, _, line2, _ := runtime.Caller(2)
+		pfSites[fmt.Sprintf("waits.expired.at.%d.%d", line, line2)]++
 	}
 }
 
@@ -244,6 +257,7 @@ func RunPortFwd(behs [][]Step, tr *Trace, env Env, sum *Summary) {
 		waitArrival := func(s string) {
 			pfWait(2*time.Second, func() bool { return gate[s].count() > released[s] })
 		}
+		upWant := map[string]int{}      // bytes that went into a connection to the target, per socket
 		upSent := map[string][]string{} // chunks the agent sent per socket (accepted or not)
 		wrote := map[string][]string{}  // chunks the target wrote per socket
 		agentGot := map[string][]byte{} // bytes handed to the agent in write tasks per socket
@@ -268,9 +282,13 @@ func RunPortFwd(behs [][]Step, tr *Trace, env Env, sum *Summary) {
 		}
 		// queued socket tasks for this agent as the specification counts them: write tasks of one socket that follow each
 		// other are one entry (a large read is cut by the relay's buffer), labelled against the target's stream
+		qraw := map[string][]byte{} // queued write-task bytes per socket, as of the last call of queued()
 		queued := func() ([]any, map[string]int) {
 			out := []any{}
 			nbytes := map[string]int{}
+			for k := range qraw {
+				delete(qraw, k)
+			}
 			if !tryLock(&a.JobQueueMtx) {
 				return []any{map[string]any{"k": "?locked", "s": "", "d": []string{}}}, nbytes
 			}
@@ -310,6 +328,7 @@ func RunPortFwd(behs [][]Step, tr *Trace, env Env, sum *Summary) {
 				if e.k == "w" {
 					d = labelsOf(e.b, pfDown)
 					nbytes[e.s] += len(e.b)
+					qraw[e.s] = append(qraw[e.s], e.b...)
 				}
 				out = append(out, map[string]any{"k": e.k, "s": e.s, "d": d})
 			}
@@ -338,7 +357,18 @@ func RunPortFwd(behs [][]Step, tr *Trace, env Env, sum *Summary) {
 				agot[n] = labelsOf(agentGot[n], pfDown)
 			}
 			q, _ := queued()
-			return map[string]any{"table": table, "tgot": tgot, "tside": tside, "q": q, "agot": agot, "atold": append([]string{}, atold...), "locked": locked, "done": done}
+			// the relay's reads do not stop at the target's writes: what has been handed on is judged as a stream - a prefix of
+			// what the target wrote, byte for byte - with its length
+			dn := map[string]any{}
+			for _, n := range names {
+				var whole []byte
+				for _, l := range wrote[n] {
+					whole = append(whole, pfChunks[l]...)
+				}
+				passed := append(append([]byte{}, agentGot[n]...), qraw[n]...)
+				dn[n] = map[string]any{"ok": len(passed) <= len(whole) && bytes.Equal(passed, whole[:len(passed)]), "h": len(agentGot[n]), "q": len(qraw[n])}
+			}
+			return map[string]any{"dn": dn, "table": table, "tgot": tgot, "tside": tside, "q": q, "agot": agot, "atold": append([]string{}, atold...), "locked": locked, "done": done}
 		}
 		hasConn := func(s string) bool {
 			if !tryLock(&a.PortFwdsMtx) {
@@ -383,11 +413,9 @@ func RunPortFwd(behs [][]Step, tr *Trace, env Env, sum *Summary) {
 				b := &refdemon.Buf{}
 				b.I32(agent.SOCKET_COMMAND_READ).I32(sock[s]).I32(agent.SOCKET_TYPE_CLIENT).I32(1).Bytes(pfChunks[c])
 				callback(si, op, b)
-				if hasConn(s) { // the write went into a socket: give the target's reader time to drain it
-					want := 0
-					for _, l := range upSent[s] {
-						want += len(pfChunks[l])
-					}
+				if _, side := tg[s].snapshot(); hasConn(s) && side != "closed" { // the write went into a socket: give the target's reader time to drain it
+					upWant[s] += len(pfChunks[c])
+					want := upWant[s]
 					until(1500*time.Millisecond, func() bool { g, _ := tg[s].snapshot(); return len(g) >= want })
 				}
 			case "TargetWrite":
@@ -545,6 +573,10 @@ func RunPortFwd(behs [][]Step, tr *Trace, env Env, sum *Summary) {
 			sum.Samples = append(sum.Samples, beh)
 		}
 		sum.Behaviours++
+	}
+	sum.Counters["waits.expired"], sum.Counters["waits.late"] = pfExpired, pfLate
+	for k, v := range pfSites {
+		sum.Counters[k] = v
 	}
 }
 
